@@ -245,7 +245,7 @@ fn extension_additions(input: Input<'_>) -> ParserResult<'_, ()> {
                         pair(
                             terminated(
                                 alt((value(None, tag(MIN)), map(asn1_value, Some))),
-                                skip_ws_and_comments(opt(char(GREATER_THAN))),
+                                skip_ws_and_comments(opt(char(LESS_THAN))),
                             ),
                             preceded(
                                 range_seperator,
@@ -304,18 +304,27 @@ fn contained_subtype(input: Input<'_>) -> ParserResult<'_, SubtypeElements> {
     .parse(input)
 }
 
+/// X.680 51.4.2: a `<` next to an endpoint excludes the endpoint itself from the range;
+/// for an integer literal the nearest included value takes its place
+fn exclusive_endpoint(endpoint: Option<ASN1Value>, excluded: bool, step: i128) -> Option<ASN1Value> {
+    match endpoint {
+        Some(ASN1Value::Integer(i)) if excluded => Some(ASN1Value::Integer(i.saturating_add(step))),
+        other => other,
+    }
+}
+
 fn value_range(input: Input<'_>) -> ParserResult<'_, SubtypeElements> {
     opt_delimited(
         skip_ws_and_comments(char(LEFT_PARENTHESIS)),
         skip_ws_and_comments(map(
             (
-                terminated(
+                pair(
                     alt((value(None, tag(MIN)), map(asn1_value, Some))),
-                    skip_ws_and_comments(opt(char(GREATER_THAN))),
+                    skip_ws_and_comments(opt(char(LESS_THAN))),
                 ),
                 preceded(
                     range_seperator,
-                    preceded(
+                    pair(
                         opt(char(LESS_THAN)),
                         skip_ws_and_comments(alt((value(None, tag(MAX)), map(asn1_value, Some)))),
                     ),
@@ -326,9 +335,9 @@ fn value_range(input: Input<'_>) -> ParserResult<'_, SubtypeElements> {
                     extension_additions,
                 ))),
             ),
-            |(min, max, ext)| SubtypeElements::ValueRange {
-                min,
-                max,
+            |((min, min_excluded), (max_excluded, max), ext)| SubtypeElements::ValueRange {
+                min: exclusive_endpoint(min, min_excluded.is_some(), 1),
+                max: exclusive_endpoint(max, max_excluded.is_some(), -1),
                 extensible: ext.is_some(),
             },
         )),
